@@ -170,7 +170,7 @@ def run(ctx):
     strings = list(dict.fromkeys(strings))
     nvar = 8 if ctx.thorough else 3
     ctx.pmap(w_any, [("q", 3), ("rel", None)] + [("s", (c, nvar)) for c in chunks(strings, 500)] +
-             [("b", c) for c in chunks([tuple(x) for x in bases] + strings[:40:3], 2)])
+             [("b", c) for c in chunks([tuple(x) for x in bases] + strings[:40:3], 2)], ambient=True)
     ctx.cov["strings"] = len(strings)
     ctx.samples += [{"codes": list(bases[3]), "adsb": list(frames_for(bases[3], 7))[0][1], "bds20": list(frames_for(bases[3], 7))[1][1]}]
 
